@@ -60,6 +60,10 @@ pub struct Ctx<'a> {
     /// keep-alive is configured on the victim socket (else nothing is ever taken for a keep-alive)
     pub ka_enabled: bool,
     pub last_v_frames: Vec<Packet>,
+    /// the peer uses the timestamps option (RFC 7323): on its SYN / SYN-ACK and then on every segment but resets
+    pub p_ts: bool,
+    /// latest timestamp value seen from the victim (echoed by the peer)
+    pub v_tsval: u32,
 }
 
 impl<'a> Ctx<'a> {
@@ -86,6 +90,9 @@ impl<'a> Ctx<'a> {
                 let s = p.summary();
                 self.log(|| format!("V tx {}", s));
                 if let Some((_, t)) = p.tcp() {
+                    if let Some((v, _)) = t.opts.ts {
+                        self.v_tsval = v;
+                    }
                     if t.has(F_SYN) {
                         self.iss_v = Some(t.seq);
                         self.v_ws = t.opts.wscale;
@@ -153,6 +160,9 @@ impl<'a> Ctx<'a> {
         let mut t = t.clone();
         t.sport = self.p_port;
         t.dport = self.v_port;
+        if self.p_ts && t.flags & F_RST == 0 && t.opts.ts.is_none() && t.opts.sack.len() < 4 {
+            t.opts.ts = Some(((self.now / 1000) as u32, self.v_tsval));
+        }
         let l4 = enc_tcp(&self.p_addr, &self.v_addr, &t);
         enc_ip(&self.p_addr, &self.v_addr, P_TCP, 64, &l4)
     }
@@ -279,12 +289,16 @@ pub fn setup<'a>(tape: &'a mut Tape, props: Props, trace_on: bool, mode: Mode) -
         v_syn_win: None,
         ka_enabled: ka.is_some(),
         last_v_frames: vec![],
+        p_ts: false,
+        v_tsval: 0,
     };
     (ctx, Setup { v6, rx, tx, mtu, victim_listens, desc })
 }
 
 /// A correct three-way handshake. After it the victim is ESTABLISHED (checked).
 pub fn handshake(c: &mut Ctx, su: &Setup, p_win: u16) -> Result<bool, Violation> {
+    // a third of the peers use timestamps - with or without offering selective acknowledgements
+    c.p_ts = c.tape.draw(3) == 0;
     let ts = None;
     if su.victim_listens {
         let port = c.v_port;
